@@ -119,6 +119,79 @@ def run_fp(T, v0, tol, max_iter, method):
 POLYM_CORPUS = json.loads('[{"nums":[2,4,3,4],"den":997,"pm":{"0,1":[[2492,-920,2066,-2676],[3329,2297,-4974,-745]],"0,2":[[2243,4468,173],[4584,1196,-231]],"0,3":[[4242,2459,903,-3802],[-3740,3197,3210,-3078]],"1,0":[[-1775,2579],[-3005,436],[1445,-4166],[1307,930]],"1,2":[[3748,-4208,-945],[-4781,2772,-1984],[2380,-1928,-3647],[-2251,-1337,-1570]],"1,3":[[-1944,-1169,-1547,1514],[3857,25,-4627,825],[3575,4764,1731,4119],[2764,-4707,-2015,-1765]],"2,0":[[-1630,4780],[-1690,4354],[4945,-1987]],"2,1":[[273,-1784,1457,90],[-1371,604,2696,1751],[-3801,1905,3097,183]],"2,3":[[1790,-4160,2088,550],[-3917,491,-3927,4454],[2015,-576,4057,3415]],"3,0":[[1184,3617],[1561,2134],[43,-344],[-4627,4476]],"3,1":[[696,4557,657,2298],[4216,-4817,-4292,-4907],[3566,3134,1431,-1371],[4566,-835,4276,2621]],"3,2":[[-1164,3297,4369],[2087,-331,-385],[2064,-1579,-4887],[4153,3663,-2055]]}},{"nums":[3,2,2,4],"den":997,"pm":{"0,1":[[807,-1231],[369,-2672],[-2929,898]],"0,2":[[-2496,1493],[-2556,2566],[-148,4301]],"0,3":[[-2018,-1127,400,-1083],[932,440,-4301,924],[1096,-1954,426,2679]],"1,0":[[-783,4965,-3337],[2521,3552,-2207]],"1,2":[[1077,1762],[3919,3652]],"1,3":[[-4177,2646,1545,-3716],[-4632,646,-532,815]],"2,0":[[-551,286,-2887],[-3940,2548,-3566]],"2,1":[[3509,-3533],[927,2553]],"2,3":[[793,-2379,3684,34],[-3986,-3354,-672,2407]],"3,0":[[939,3437,1750],[-530,376,-2497],[3120,-2397,3611],[3498,-85,-3154]],"3,1":[[1471,3389],[-2806,225],[1564,-1210],[-3560,1551]],"3,2":[[-3876,1028],[-2782,-4543],[-592,-2058],[246,2396]]}},{"nums":[3,2,3,4],"den":997,"pm":{"0,1":[[3162,912],[4344,32],[-2860,3800]],"0,2":[[-4512,-1462,-1514],[3262,-421,-1944],[-424,-3856,-3035]],"0,3":[[-359,2058,2454,333],[2620,-4600,-764,-1531],[-4181,108,2155,-4592]],"1,0":[[2884,2525,-1737],[-568,-3644,4543]],"1,2":[[-2694,991,-3072],[-1165,956,-654]],"1,3":[[3755,134,-4261,-2500],[4370,4308,-956,-359]],"2,0":[[4919,3007,-1674],[-4371,1780,-4961],[-4564,-1817,1955]],"2,1":[[-3302,-2802],[-2545,-2174],[-2274,-4886]],"2,3":[[-1020,1734,-972,-4729],[-447,1258,-2457,-2713],[3527,-2569,3925,3916]],"3,0":[[-3887,-1607,1549],[-4767,-4015,-3347],[809,-2075,2822],[-2759,3276,1490]],"3,1":[[-4187,4248],[-4508,3691],[624,-2529],[-4058,-434]],"3,2":[[1134,-1648,3624],[-978,18,1839],[1854,1763,-3096],[-1928,-1248,-1574]]}},{"nums":[3,4,3,3],"den":997,"pm":{"0,1":[[15,-3107,2551,4255],[-184,-733,-263,1254],[2832,2976,-2979,-4747]],"0,2":[[3519,-1090,-4436],[-1104,2475,4504],[969,4558,4971]],"0,3":[[928,-1200,1560],[-1481,-1835,1297],[3688,-1096,-3971]],"1,0":[[156,4506,3158],[4873,-1360,3166],[-163,-1648,-2231],[-1005,4340,785]],"1,2":[[4517,-2581,-323],[-1203,-38,-5],[3695,-747,4891],[-1690,-860,2108]],"1,3":[[-1581,-655,-2749],[-4484,-78,1761],[2001,3827,1171],[1542,-403,-1255]],"2,0":[[-2743,3756,4104],[3863,2613,3119],[3347,-1523,-4404]],"2,1":[[2581,-4779,-3221,-2038],[-3128,-2412,-4206,126],[3143,-2606,4459,-3197]],"2,3":[[-4330,4721,2395],[-4114,3467,-3378],[-926,4013,4673]],"3,0":[[-3472,-4570,-500],[4011,-1571,-4525],[-9,-4630,3614]],"3,1":[[1981,635,-1058,3878],[2060,-3157,4943,1972],[1514,-1141,3503,-2855]],"3,2":[[2429,-3752,-2424],[413,3429,-1956],[4406,-904,-324]]}},{"nums":[4,4,2,4],"den":997,"pm":{"0,1":[[4674,1493,3349,-3995],[-4909,-2168,-3314,26],[-1473,-1562,72,4104],[2321,-2313,-4533,-987]],"0,2":[[-2073,1102],[-1759,-1134],[-1577,3378],[-252,-2994]],"0,3":[[-3291,-4044,2329,-1890],[2761,4447,-3358,3659],[-3421,-2171,-1930,-516],[-666,-3697,4141,3755]],"1,0":[[-3817,4432,-456,1432],[2265,-3162,-4873,91],[4577,1681,-3196,-2572],[-4824,-4152,1095,-2093]],"1,2":[[-2374,2274],[-424,491],[-4253,3843],[2407,1038]],"1,3":[[3709,-1936,2507,3536],[-1550,1625,832,-1679],[1324,4701,-4335,2899],[-518,-4674,3593,-4834]],"2,0":[[-1916,-1222,700,-2387],[1857,-2781,-2601,644]],"2,1":[[2979,-1932,-76,-2696],[865,-1061,768,4897]],"2,3":[[1776,-1531,-1673,4153],[502,3315,4223,3917]],"3,0":[[-1133,-2641,-2215,2850],[3676,-1707,-2950,-4089],[-1978,1586,-3670,2687],[-3671,4492,2644,1400]],"3,1":[[-2764,4387,486,-2190],[-4115,-4359,-216,575],[2130,1079,-2111,-4046],[3444,-3301,1767,-4491]],"3,2":[[-2467,-640],[4369,-2804],[-667,-2447],[-4189,-829]]}}]')
 
 
+# a game whose payoffs k/997 are pairwise different but on which player 0's two actions tie EXACTLY against the starting profiles
+# below (numerator sums 1709+3266-3007 = 2377-4219+3810): a degenerate path; binary64 sees a 1e-16 gap, cycles. Regression case for
+# the non-degeneracy certificate (the runs are counted as excluded, never as failures and never as passes)
+POLYM_DEGENERATE = json.loads('{"nums":[2,4,4,3],"den":997,"pm":{"0,1":[[1523,1709,-3819,-4621],[-2314,2377,4724,2234]],"0,2":[[3266,-3368,4916,-2881],[-4219,4181,-605,-1884]],"0,3":[[-392,-254,-3007],[-1467,-1647,3810]],"1,0":[[351,-1572],[-2148,3253],[-4829,-3562],[-4212,-4700]],"1,2":[[1981,-3227,3028,3404],[-61,2475,4433,-2345],[2186,1496,-2503,2061],[3842,-1681,-2942,-997]],"1,3":[[-2846,3058,727],[-2258,405,711],[-4610,1764,-1913],[-1535,-3363,-2778]],"2,0":[[-2681,2710],[3585,-544],[1918,3722],[1856,2804]],"2,1":[[3350,-4771,-2191,-2489],[3627,2076,1304,-4342],[1807,-556,-384,3956],[3883,4340,4547,2088]],"2,3":[[-3989,-3874,-1848],[-1587,-3699,-104],[-2941,3317,-2040],[-2054,885,-3927]],"3,0":[[-2947,1501],[2421,1464],[-4247,4838]],"3,1":[[725,-676,-3374,-4709],[818,2552,-845,-1248],[2379,274,-3854,-4638]],"3,2":[[-4706,-995,4134,-1524],[378,4909,-1743,-3067],[-1691,4256,2290,-1173]]},"starts":[[0,1,0,2],[1,1,0,2]]}')
+
+
+def game_digest(nums, pm):
+    import hashlib
+    txt = json.dumps([list(nums), sorted((list(k), [[repr(float(x)) for x in r] for r in np.asarray(v).tolist()]) for k, v in pm.items())])
+    return hashlib.sha1(txt.encode()).hexdigest()
+
+
+def polym_exact_certificate(pm, nums, start, max_iter=400):
+    """exact-rational replay (Fractions of the binary64 payoffs, tolerances 0) of polym_lcp_solver's pivot path.
+    Returns (converged, pivots, exact_ties, min_gap): min_gap = smallest relative gap between the two smallest ratios over all
+    minimum-ratio tests of the path. A path with an exact tie or min_gap < 1e-9 is degenerate: binary64 cannot resolve it."""
+    Fr = Fraction
+    N = len(nums); total = sum(nums); n = total + N
+    off = [sum(nums[:p]) for p in range(N + 1)]
+    pcm = Fr(max(float(np.max(M_)) for M_ in pm.values())) + 2
+    M = [[Fr(0)] * n for _ in range(n)]
+    for p in range(N):
+        for p2 in range(N):
+            if p2 != p:
+                for a in range(nums[p]):
+                    for c in range(nums[p2]):
+                        M[off[p] + a][off[p2] + c] = pcm - Fr(float(pm[(p, p2)][a][c]))
+        for a in range(nums[p]):
+            M[off[p] + a][total + p] = Fr(-1); M[total + p][off[p] + a] = Fr(1)
+    tab = [[Fr(int(i == j)) for j in range(n)] + [-M[i][j] for j in range(n)] + [Fr(0) if i < total else Fr(-1)] for i in range(n)]
+    basis = list(range(n))
+
+    def pivoting(pc, pr):
+        pe = tab[pr][pc]; tab[pr] = [x / pe for x in tab[pr]]
+        for i in range(n):
+            if i != pr and tab[i][pc] != 0:
+                m = tab[i][pc]; tab[i] = [x - y * m for x, y in zip(tab[i], tab[pr])]
+    ties = 0; min_gap = None
+    for p in range(N):
+        pivoting(n + off[p] + start[p], total + p); basis[total + p] = n + off[p] + start[p]
+    it = 0; p = 0; retro = False
+    while p < N:
+        fv = total + n + p; fx = n + off[p] + start[p]; fy = fx - n
+        pc = fv if not retro else (fx if fy in basis else fy); retro = False
+        while True:
+            if it == max_iter:
+                return False, it, ties, min_gap
+            it += 1
+            cand = sorted((tab[i][-1] / tab[i][pc], i) for i in range(n) if tab[i][pc] > 0)
+            if not cand:
+                return False, it, ties, min_gap
+            if len(cand) > 1:
+                gap = (cand[1][0] - cand[0][0]) / max(1, abs(cand[0][0]))
+                ties += (gap == 0); min_gap = gap if min_gap is None else min(min_gap, gap)
+            # lexicographic rule on exact ties (never needed on a non-degenerate path)
+            best = [i for r_, i in cand if r_ == cand[0][0]]
+            r = best[0]
+            for j in range(n):
+                if len(best) == 1: break
+                if j == pc: continue
+                vals = [(tab[i][j] / tab[i][pc], i) for i in best]; mn = min(v_ for v_, _i in vals)
+                best = [i for v_, i in vals if v_ == mn]
+            r = best[0]
+            pivoting(pc, r); lv = basis[r]; basis[r] = pc
+            if lv == fx or lv == fy: p += 1; break
+            elif lv == fv:
+                if p == 0: return False, it, ties, min_gap
+                p -= 1; retro = True; break
+            elif lv < n: pc = lv + n
+            else: pc = lv - n
+    return True, it, ties, min_gap
+
+
 def _pl_pivoting(*a):
     from quantecon.optimize.pivoting import _pivoting
     return _pivoting(*a)
@@ -523,14 +596,18 @@ def run(ctx):
         pm = {(i, j): np.array([[shift + scale * rng.randrange(-5000, 5001) / 997.0 for _c in range(nums[j])] for _r in range(nums[i])])
               for i in range(N) for j in range(N) if i != j}
         games.append((nums, pm, "random:" + fam))
+    gd_ = POLYM_DEGENERATE
+    games.append((gd_["nums"], {tuple(int(t) for t in k.split(",")): np.array(v, dtype=float) / float(gd_["den"]) for k, v in gd_["pm"].items()},
+                  "degenerate-regression"))
     PL_MAX = 2000
     for nums, pm, origin in games:
         N = len(nums)
         pg = PolymatrixGame(pm)
-        for start in itertools.product(*[range(n) for n in nums]):
+        digest = game_digest(nums, pm)
+        for start in (itertools.product(*[range(n) for n in nums]) if origin != "degenerate-regression" else [tuple(s_) for s_ in gd_["starts"]]):
             back, flips, tconv, tit = polym_trace(pm, nums, start, PL_MAX)   # same kernels, instrumented outer loop
             inp = {"solver": "polym_lcp_solver", "nums_actions": nums, "polymatrix": {"%d,%d" % k: v.tolist() for k, v in pm.items()},
-                   "start": list(start), "max_iter": PL_MAX, "origin": origin, "backtracks": back, "flipped_pair": flips}
+                   "start": list(start), "max_iter": PL_MAX, "origin": origin, "backtracks": back, "flipped_pair": flips, "game_digest": digest}
             try:
                 start_call, dlabel = dress(rng, start)
                 ctx.count("polym_lcp_solver:start-dress=%s" % dlabel)
@@ -550,8 +627,16 @@ def run(ctx):
             if flips: ctx.count("polym_lcp_solver:backtrack-with-flipped-finishing-pair")
             pl_all.append((2 if flips else 1 if back else 0, nums, start, pm, NE, res))
             if not res.converged:
-                ctx.fail("polym_no_convergence", "polym_lcp_solver did not converge within %d pivots on a generic polymatrix game "
-                         "(the instrumented run of the documented algorithm needs %d, converged=%s)" % (PL_MAX, tit, tconv), inp, int(res.num_iter), tit)
+                # non-degeneracy certificate: exact-rational replay of the pivot path on the binary64 payoffs. Convergence is required only
+                # on paths that binary64 can resolve: no exact tie and relative gap >= 1e-9 in every minimum-ratio test of the exact path
+                xc, xit, xties, xgap = polym_exact_certificate(pm, nums, start)
+                if xties or (xgap is not None and xgap < Fraction(1, 10**9)):
+                    ctx.count("polym_lcp_solver:excluded:degenerate path (exact tie or ratio gap < 1e-9)")
+                    pl_all.pop()
+                    continue
+                ctx.fail("polym_no_convergence", "polym_lcp_solver did not converge within %d pivots on a generic polymatrix game although the exact-rational "
+                         "replay of its pivot path is non-degenerate (min ratio gap %.3g) and converges=%s in %d pivots"
+                         % (PL_MAX, float(xgap) if xgap is not None else float("inf"), xc, xit), inp, int(res.num_iter), xit)
                 continue
             prof = [[F(x) for x in a] for a in NE]
             if not all(all(x >= -Fraction(1, 10**9) for x in a) and abs(sum(a) - 1) <= Fraction(1, 10**9) for a in prof):
